@@ -17,9 +17,9 @@ def run(ctx):
     for k, ops, kp, pops in (q if ctx.tier == 'quick' else t):
         nrec = k + kp + 1
         ctx.add(Harness('C27_crash_k%d_ops%02x_kp%d_pops%02x' % (k, ops, kp, pops), VERIF + '/harness/C27_crash.c',
-                        defines=defs + ['K=%d' % k, 'KP=%d' % kp, 'OPS=0x%x' % ops, 'POPS=0x%x' % pops, 'VF_MAXCOPY=8', 'VF_FS_CRASH=1', 'VF_FS_FSIZE=%d' % (16 * nrec)],
+                        defines=defs + ['K=%d' % k, 'KP=%d' % kp, 'OPS=0x%x' % ops, 'POPS=0x%x' % pops, 'VF_MAXCOPY=8', 'VF_FS_CRASH=1', 'VF_FS_FSIZE=%d' % (16 * (nrec + 1))],
                         unwind=nrec + 2, unwindset=C26.FUS + ['main.0:%d' % (k + 1), 'main.1:%d' % (kp + 1)],
-                        timeout=1200 if ctx.tier == 'quick' else 3600, mem_gb=16, functions=FUN, stubs=STUBS,
+                        timeout=1200 if ctx.tier == 'quick' else 3600, mem_gb=16, functions=FUN, stubs=STUBS, nochecks=(ctx.tier == 'quick'),   # pointer/overflow instrumentation (4x the formula) only in the thorough tier
                         bounds='process 1: initialise on an empty directory + up to %d operations from op set 0x%02x {bit 0 message put, 1 control put, 2 get}, crash after any completed write/lseek or none; '
                                'process 2: initialise on the frozen files + %d operations from {message put, control put} with a symbolic probe get(1..6) + control get after reopen and after each operation; '
                                'seqnums 0..6, payloads 1-2 symbolic bytes, control values <= 1000; FIX8_MAX_MSG_LENGTH scaled to %d' % (k, ops, kp, C26.MSGLEN),
